@@ -280,3 +280,33 @@ def run(ctx):
         lambda leaf: leaf in ("get_hash", "_calc_hash") or leaf.startswith("hash_"),
     ):
         r8.check(ok, construct, msg, rel_, line)
+
+    # ---- C18.9 every hash of a call or task value covers the exported option names ---------------------------------
+    # TaskExpression/SchedulerExpression hash `_export_options`; a Task passed as an *argument* is hashed by Task._calc_hash.  If that hash leaves
+    # the exported names out, g(f.options(executor="a"), 1) and g(f.export_options(executor="a"), 1) are one expression although the second
+    # exports the option to child jobs.
+    r9 = ctx.rule("C18.9", "every _calc_hash of a class that carries _export_options reads it", floor=3)
+    for rel9, cname in (("redun/task.py", "Task"), ("redun/expression.py", "TaskExpression"), ("redun/expression.py", "SchedulerExpression")):
+        mod9 = repo.mod(rel9)
+        fn9 = mod9.funcs.get(f"{cname}._calc_hash")
+        if fn9 is None:
+            raise AnalysisError(f"{cname}._calc_hash not found", f"{cname}._calc_hash")
+        # a read that contributes a value (not one that only steers a branch)
+        def _in_test(a) -> bool:
+            cur = a
+            while cur is not None and not isinstance(cur, ast.stmt):
+                par = mod9.parent.get(cur)
+                if isinstance(par, (ast.If, ast.IfExp, ast.While)) and par.test is cur:
+                    return True
+                cur = par
+            return False
+
+        reads = any(isinstance(a, ast.Attribute) and a.attr == "_export_options" and src(a.value) == "self" and not _in_test(a) for a in ast.walk(fn9))
+        r9.check(
+            reads,
+            f"{rel9}:{cname}._calc_hash:covers-export-options",
+            f"{cname}._calc_hash does not read self._export_options: two values that differ only in which overrides are exported to child jobs (t.options(executor='a') vs "
+            "t.export_options(executor='a')) hash the same, so calls taking them as arguments are merged into one expression",
+            rel9,
+            fn9.lineno,
+        )
